@@ -362,9 +362,12 @@ struct Gen {
 		int rle_mode = (int) t.range(0, 3); // 0 greedy, 1 never, 2/3 random
 		if (f && P.fault == F_REPEAT_NOPREV) { cl.push_back({16, (uint8_t) t.range(0, 3)}); S.fault_applied = true; }
 		size_t i = 0;
-		while (i < all.size()) {
+		size_t stop = all.size();
+		bool overflow_fault = f && P.fault == F_REPEAT_OVERFLOW;
+		if (overflow_fault) stop = all.size() - (size_t) t.range(1, 2); // the last one or two lengths are replaced by a repeat that runs past HLIT+HDIST
+		while (i < stop) {
 			size_t run = 1;
-			while (i + run < all.size() && all[i + run] == all[i]) run++;
+			while (i + run < stop && all[i + run] == all[i]) run++;
 			bool use = rle_mode == 0 || (rle_mode >= 2 && (pbt::mix64(rs + i) & 1));
 			if (use && all[i] == 0 && run >= 3) {
 				size_t r = std::min<size_t>(run, 138);
@@ -380,7 +383,7 @@ struct Gen {
 				i += r;
 			} else { cl.push_back({all[i], 0}); i++; }
 		}
-		if (f && P.fault == F_REPEAT_OVERFLOW) { cl.push_back({(uint8_t) (t.coin() ? 18 : 17), (uint8_t) t.range(0, 7)}); S.fault_applied = true; }
+		if (overflow_fault) { cl.push_back({(uint8_t) (t.coin() ? 18 : 17), (uint8_t) t.range(0, 7)}); S.fault_applied = true; } // 17: 3..10 zeros, 18: 11..18 zeros > 2 remaining
 		std::set<int> clu;
 		for (auto &c : cl) clu.insert(c.sym);
 		if (clu.size() == 1) clu.insert((*clu.begin() + 1) % 19); // the code-length code must be complete: at least two symbols
